@@ -607,6 +607,7 @@ func runC13(c *Ctx) {
 	checkSingleInstance(c, newLockWorld(c.W))
 	// a stale cache file is refused: every entity in git is addressable after a restart (shared with C11)
 	checkLoadHeuristic(c)
+	checkExcerptsDeletedOnlyByRemoval(c, "R11.13")
 	checkCommentCombinedIdStable(c, "R13.8")
 	// what Resolve / ResolveComment hand out is a live instance: use refreshes its LRU position (shared with C18)
 	checkLRUAndWriteSection(c, newLockWorld(c.W))
